@@ -196,7 +196,70 @@ def lift0(x):
 
 
 def is_conc_num(x):
+    if isinstance(x, SymFloat):
+        return False
     return isinstance(x, (bool, int, float, _np.number, _np.bool_, fractions.Fraction))
+
+
+class SymFloat(float):
+    """a Python float subclass that carries a symbolic value: it passes `isinstance(x, float)` tests in the code
+    under analysis while every comparison and arithmetic operation is delegated to the symbol"""
+
+    def __new__(cls, sym):
+        o = float.__new__(cls, 0.5)
+        o.sym = sym
+        return o
+
+    def __lt__(self, o):
+        return self.sym < o
+
+    def __le__(self, o):
+        return self.sym <= o
+
+    def __gt__(self, o):
+        return self.sym > o
+
+    def __ge__(self, o):
+        return self.sym >= o
+
+    def __eq__(self, o):
+        return self.sym == o
+
+    def __ne__(self, o):
+        return self.sym != o
+
+    __hash__ = None
+
+    def __add__(self, o):
+        return self.sym + o
+
+    __radd__ = __add__
+
+    def __sub__(self, o):
+        return self.sym - o
+
+    def __rsub__(self, o):
+        return o - self.sym
+
+    def __mul__(self, o):
+        return self.sym * o
+
+    __rmul__ = __mul__
+
+    def __truediv__(self, o):
+        return self.sym / o
+
+    def __rtruediv__(self, o):
+        return o / self.sym
+
+    def __neg__(self):
+        return -self.sym
+
+    def __format__(self, spec):
+        return "<symbolic float>"
+
+    def __repr__(self):
+        return "<symbolic float>"
 
 
 def is_sym(x):
@@ -311,6 +374,17 @@ class SymB:
     def __invert__(self):
         return SymB(z3.Not(self.t))
 
+    # booleans used as numbers (np.sum over comparisons, counting): concretise by fork
+    def __int__(self):
+        return int(bool(self))
+
+    __index__ = __int__
+
+    def __add__(self, o):
+        return int(bool(self)) + (int(bool(o)) if isinstance(o, SymB) else o)
+
+    __radd__ = __add__
+
     def __repr__(self):
         return "SymB(%s)" % self.t
 
@@ -368,6 +442,8 @@ class Sym:
     def of(o):
         if isinstance(o, Sym):
             return o
+        if isinstance(o, SymFloat):
+            return o.sym
         if isinstance(o, _np.ndarray) and o.shape == ():
             return Sym.of(o.item())
         return Sym(Poly.const(lift0(o)))
